@@ -1,5 +1,6 @@
 //@unit simple_window
 //@include head.rs
+//@export-begin
 
 // ------------------------------------------------------------------ Momentum
 //@extract src/methods/momentum.rs struct:Momentum
@@ -27,6 +28,9 @@ impl Method for Momentum {
 //@extract src/methods/momentum.rs impl[Method for Momentum]::next
 //@end
 }
+
+//@extract src/methods/momentum.rs type:Change
+//@end
 
 // ------------------------------------------------------------------ Derivative
 //@extract src/methods/derivative.rs struct:Derivative
@@ -198,5 +202,6 @@ pub proof fn integral_const_step(pre: Integral, v: R, post: Integral, out: R)
 	lemma_sum_konst(pre.window.view().len(), v);
 }
 
+//@export-end
 } // verus!
 fn main() {}
